@@ -667,6 +667,16 @@ def c15(run):
 
 def c16(run):
     limits_pipeline(run, "C16", {"notify"}, vegas=False)
+    # two samples racing (real time, bounded wait): the parked notification must not be overtaken
+    out, _ = run.go("^TestNotifyAttack$", timeout=300)
+    run.extra["notify_attack"] = json.load(open(os.path.join(out, "notify.json")))
+    tp = os.path.join(out, "notify_trace.ndjson")
+    rejects, total = validate_sharded(run, "LimitTrace", "Limit_trace.cfg", tp)
+    run.events += total
+    run.traces += total
+    for rj in rejects:
+        run.report("%s limit: two concurrent samples; the listener was last told %s but EstimatedLimit reports %s" % (rj["logged"].get("algo"), rj["logged"].get("last"), rj["logged"].get("est")),
+                   {"reject": rj, "rerun": "bin/check C16"}, {"algo": rj["logged"].get("algo"), "class": "notify-concurrent"})
 
 
 def measure_part(run, prop):
@@ -791,8 +801,8 @@ def c14(run):
     run.states += r.distinct
     run.transitions += r.generated
     cases = r.json_prints("CASE")
-    if len(cases) != 192:
-        raise Machinery("GrpcMC enumerated %d cases, expected the full product of 192" % len(cases))
+    if len(cases) != 384:
+        raise Machinery("GrpcMC enumerated %d cases, expected the full product of 384" % len(cases))
     indir = os.path.join(run.scratch, "in")
     os.makedirs(indir, exist_ok=True)
     vlib.write_ndjson(os.path.join(indir, "grpc_cases.ndjson"), cases)
